@@ -550,9 +550,94 @@ class RuleCodecStream(Stream):
                 'print(RuleCodecStream().impl(json.loads(%r)))' % json.dumps(c))
 
 
+# ---------------------------------------------------------------------------------------------------------------
+# a whole policy written with to_json (Policy._data) and read with Policy.from_json: Model.Policy data_of/from_props
+# ---------------------------------------------------------------------------------------------------------------
+class PolicyJsonStream(Stream):
+    name = 'policy_written_then_read'
+    imports = 'From Vakt Require Import Model.Rules Model.Policy Model.Regex Harness.RunC10 Harness.RunC09.'
+    case_type = 'RunC10.case'
+    run_fn = 'run_pjson'
+    rule = ('policies built by the constructor (lists or tuples of str / rule / dict elements, plain values, context / '
+            'legacy rules) and changed by 0-6 attribute assignments (rejected ones included), then written with '
+            'to_json and read with Policy.from_json: vars(policy) after writing (tuples became lists, in place) and '
+            'vars() of the policy read back (or the exception) are compared with data_of / from_props (data_of s) of '
+            'the model. non-trivial = a tuple-valued attribute was written and the policy could be read back')
+
+    def generate(self, rng, tier):
+        from .c10 import C10Stream, gen_op
+        n = 400 if tier == 'quick' else 4000
+        src = C10Stream().generate(rng, tier)
+        made = 0
+        for case in src:
+            if made >= n:
+                break
+            ops = [o for o in case['ops'] if o[0] != 'custom_attr'][:6]
+            if rng.random() < 0.5:
+                ops = []
+            c = {'ctor': case['ctor'], 'ops': ops}
+            if self.impl(c).startswith(('E:', 'B:')) and rng.random() < 0.9:
+                continue                      # the constructor refused: that is C10's subject, keep a few
+            made += 1
+            yield c
+
+    def emit(self, c):
+        from .c10 import C10Stream
+        return C10Stream().emit(c)
+
+    def impl(self, c):
+        import warnings
+        from vakt.policy import Policy
+        from .c10 import s_state
+        a = c['ctor']
+        with warnings.catch_warnings():
+            warnings.simplefilter('ignore')
+            try:
+                p = Policy(mk_aval(a['uid']), subjects=mk_aval(a['subjects']), effect=mk_aval(a['effect']),
+                           resources=mk_aval(a['resources']), actions=mk_aval(a['actions']),
+                           context=mk_aval(a['context']), rules=mk_aval(a['rules']),
+                           description=mk_aval(a['description']))
+            except Exception as e:  # noqa
+                return s_exc(e)
+            for n, v in c['ops']:
+                try:
+                    setattr(p, n, mk_aval(v))
+                except Exception:  # noqa
+                    pass
+            text = p.to_json()
+            written = s_state(p)
+            try:
+                back = s_state(Policy.from_json(text))
+            except Exception as e:  # noqa
+                back = s_exc(e)
+        return written + ' / ' + back
+
+    def oracle(self, c, obs):
+        """the statement on the implementation alone: a policy that was only constructed reads back as written"""
+        if ' / ' not in obs or c['ops']:
+            return None
+        written, back = obs.split(' / ', 1)
+        if written != back:
+            return 'a constructed policy read back differs from what was written: %s  vs  %s' % (back[:300], written[:300])
+        return None
+
+    def nontrivial(self, c, obs):
+        txt = json.dumps([c['ctor'], c['ops']])
+        return '["seq", true' in txt and ' / ' in obs and not obs.split(' / ', 1)[1].startswith(('E:', 'B:'))
+
+    def shrink(self, c):
+        for i in range(len(c['ops'])):
+            yield dict(c, ops=c['ops'][:i] + c['ops'][i + 1:])
+
+    def describe(self, c):
+        return ('import json; from harness.checks.c09 import PolicyJsonStream; '
+                'print(PolicyJsonStream().impl(json.loads(%r)))' % json.dumps(c))
+
+
 TRUSTED = [
     'Coq 8.16.1 kernel + vm_compute (no native_compute)',
-    'Model/Policy.v from_props + ctor (Policy.from_json / __init__), tied by the from_json_documents stream; the '
+    'Model/Policy.v from_props + ctor + data_of (Policy.from_json / __init__ / _data), tied by the from_json_documents '
+    'and policy_written_then_read streams; the '
     'checkers / rules models give the verdicts the reloaded policy must reproduce (persistence_round_trip stream)',
     'Model/RuleJson.v rule_val / rule_of_val (the JSON object jsonpickle writes for a rule and the object it rebuilds), '
     'tied to Rule.to_json / Rule.from_json by the rule_codec stream; the members of a py/set are compared as a set',
@@ -565,7 +650,7 @@ ASSUME = ['rule arguments are JSON-representable values of the modelled universe
 
 
 def main(argv):
-    return run_check('C09', [RoundTripStream(), DocStream(), RuleCodecStream()], argv, trusted_base=TRUSTED, assumptions=ASSUME,
+    return run_check('C09', [RoundTripStream(), DocStream(), RuleCodecStream(), PolicyJsonStream()], argv, trusted_base=TRUSTED, assumptions=ASSUME,
                      translated=('policy', 'sqlmodel', 'pin_inquiry', 'pin_sql', 'pin_mongo', 'pin_redis', 'pin_rules', 'pin_util'))
 
 
